@@ -53,7 +53,10 @@ def check(ctx):
     # species twins: an ordered alloy first, then the pure metal on bit-identical sites (more symmetric)
     alloy = make_supercell(base_cells()["fcc_conv"], (1, 1, 1))
     alloy = dict(alloy, numbers=np.array([13, 13, 13, 79]), name="fcc_conv-1x1x1-alloy")
-    for cname, diag in cells + [("given", alloy), ("given", make_supercell(base_cells()["fcc_conv"], (1, 1, 1)))]:
+    # a left-handed description (basis vectors a and b exchanged, det(cell) < 0) of a crystal whose rotations mix all three axes
+    lh = make_supercell(base_cells()["si_prim"], (1, 1, 1))
+    lh = dict(lh, lattice=np.asarray(lh["lattice"], float)[[1, 0, 2]], positions=np.asarray(lh["positions"], float)[:, [1, 0, 2]], name="si_prim-1x1x1-lefthanded")
+    for cname, diag in cells + [("given", alloy), ("given", make_supercell(base_cells()["fcc_conv"], (1, 1, 1))), ("given", lh)]:
         sc = diag if cname == "given" else make_supercell(base_cells()[cname], diag, rng=rng, shuffle=True)
         N = len(sc["numbers"])
         at = atoms_of(sc)
@@ -61,8 +64,10 @@ def check(ctx):
         ops = spglib.get_symmetry((sc["lattice"], sc["positions"], sc["numbers"]))
         rots, trans = np.array(ops["rotations"]), np.array(ops["translations"])
         nops = len(rots)
-        reps_all = SpgRepsO2(at)
-        perms_all = np.asarray(reps_all._permutations)
+        # atom permutation of every operation by an independent nearest-site search (not the library's tables: the invariance is
+        # demanded under the operations of the STRUCTURE, whatever subset the library may have found or used)
+        from reference import atom_perm_by_matching
+        perms_all = np.array([atom_perm_by_matching(L, np.asarray(sc["positions"], float), np.asarray(sc["numbers"]), rots[i_], trans[i_]) for i_ in range(nops)])
         Rc = [L.T @ r @ np.linalg.inv(L.T) for r in rots]
         variants = [("spglib", None)]
         order_ = [0] + list(1 + rng.permutation(nops - 1)) if nops > 1 else [0]
